@@ -474,7 +474,7 @@ class Exec:
         if isinstance(e.op, ast.USub):
             if isinstance(v, (int, float, complex, Fraction)) and not _is_z3(v):
                 return -v
-            if _is_z3(v):
+            if _is_z3(v) and z3.is_arith(v):
                 return -v
             h = self.lib.get('neg')
             if h is not None:
